@@ -193,6 +193,7 @@ type Exec struct {
 	bounded   int // >0: bounded concretisation mode (loop unroll bound)
 	pendingBinds []Value
 	specEval  int
+	lemmaCut  int // proving lemma number lemmaCut: only earlier lemmas are available (0 = all)
 	coverN    map[string]int // vacuity queries emitted so far, per label
 	pkgPath   string // package of the unit under verification (scope of spec functions and axioms)
 	safetyOnly bool // only run-time safety obligations are generated (property tag "Cxx:safety")
